@@ -111,6 +111,10 @@ func (r *failingReader) Read(p []byte) (int, error) {
 	return n, nil
 }
 
+// c10RawUpload (set where the gRPC packages are linked in): an upload through the generated stub,
+// message by message.
+var c10RawUpload func(w *World, ctx context.Context, key string, content []byte, sizes []int, odd string, at int) error
+
 type propC10 struct{}
 
 func init() { Register(propC10{}) }
@@ -118,7 +122,7 @@ func init() { Register(propC10{}) }
 func (propC10) ID() string    { return "C10" }
 func (propC10) Level() string { return "fault_enumeration" }
 func (propC10) Rule() string {
-	return "cases: a Set/SetReader/Create of length L (L from {1, 100, 2047..2049, 32767..32769, 65537, seeded <= 150 KiB}) on a key with or without a previous value, 1-3 roots; fault kinds enumerated by run index: ENOSPC with the failing roots' real room at each of {0, 1, chunk-1, chunk, chunk+1, L-1} and seeded positions (chunk = 32 KiB copy buffer), all-or-nothing and after a partial write, on every non-empty subset of roots, honest and over-reporting disks; source reader failing at each of those offsets (5 read shapes; a plain error, an error wrapping io.EOF, io.ErrUnexpectedEOF, the error returned together with the last bytes); context cancelled at a source offset; through the inline client and the external client over the simulated gRPC transport (there also: link cut after the k-th message in either direction, server-side rejection); fault-free control runs; oracle: (a) nil => Get returns the source bytes exactly, (b) error => right class and the key still reads its previous value / not found, (c) a root that really has room and reported more free space (and > 0) than every root that has not => nil; distinct = hash(case); non-trivial = the injected fault actually fired before the last byte was stored"
+	return "cases: a Set/SetReader/Create of length L (L from {1, 100, 2047..2049, 32767..32769, 65537, seeded <= 150 KiB}) on a key with or without a previous value, 1-3 roots; fault kinds enumerated by run index: ENOSPC with the failing roots' real room at each of {0, 1, chunk-1, chunk, chunk+1, L-1} and seeded positions (chunk = 32 KiB copy buffer), all-or-nothing and after a partial write, on every non-empty subset of roots, honest and over-reporting disks; source reader failing at each of those offsets (5 read shapes; a plain error, an error wrapping io.EOF, io.ErrUnexpectedEOF, the error returned together with the last bytes); context cancelled at a source offset; through the inline client and the external client over the simulated gRPC transport (there also: link cut after the k-th message in either direction, server-side rejection, and fault-free uploads through the generated stub in shapes a foreign client may use: chunks of any size, a chunk without bytes, a message with nothing set or the header again somewhere in the stream); fault-free control runs; oracle: (a) nil => Get returns the source bytes exactly, (b) error => right class and the key still reads its previous value / not found, (c) a root that really has room and reported more free space (and > 0) than every root that has not => nil; distinct = hash(case); non-trivial = the injected fault actually fired before the last byte was stored"
 }
 func (propC10) Assumptions() []string {
 	return []string{
@@ -225,6 +229,20 @@ func (propC10) Gen(r *simrt.Rand, idx int, tier string) any {
 	case "reject":
 		c.Key = ""
 		c.Via = "setr"
+	case "none":
+		if c.Client == "simgrpc" && c10RawUpload != nil && idx%2 == 0 {
+			// no fault at all, but an upload as a foreign client might send it: chunks of any size,
+			// and one message that carries no bytes (or the header again) somewhere in between
+			c.Via = "raw"
+			c.Writes = nil
+			for rest := c.L; rest > 0 && len(c.Writes) < 40; {
+				n := 1 + r.Intn(min(rest, []int{1, 100, 2048, 5000, 40000}[r.Intn(5)]))
+				c.Writes = append(c.Writes, n)
+				rest -= n
+			}
+			c.Shape = []string{"emptychunk", "emptychunk", "nilchunk", "nodata", "header2", "sizes"}[r.Intn(6)]
+			c.FailAt = r.Intn(len(c.Writes) + 1)
+		}
 	}
 	if c.Via == "create" && c.Writes == nil {
 		c.Writes = splitWrites(r, c.L)
@@ -360,6 +378,12 @@ func (propC10) Exec(x any, choices []int32) RunOut {
 		switch c.Via {
 		case "set":
 			opErr = db.Set(ctx, c.Key, content)
+		case "raw":
+			opErr = c10RawUpload(w, ctx, c.Key, content, c.Writes, c.Shape, c.FailAt)
+			if c.Shape != "sizes" {
+				faults["upload-with-a-message-carrying-no-bytes-or-a-repeated-header"]++
+			}
+			fired = true
 		case "setr":
 			opErr = db.SetReader(ctx, c.Key, src)
 		case "create":
